@@ -379,6 +379,42 @@ pub enum NextItem {
     EndFile,
 }
 
+/// Directive of line which can't be parsed: conditionals and definitions of macros
+/// are recognised by name, so invalid operands in skipped branch don't break the nesting
+fn skipped_directive(line: &str) -> Option<Directive> {
+    let line = line.trim_start();
+    // label before directive
+    let line = match line.find(':') {
+        Some(colon)
+            if line[..colon]
+                .chars()
+                .all(|c| c.is_ascii_alphanumeric() || c == '_') =>
+        {
+            line[colon + 1..].trim_start()
+        }
+        _ => line,
+    };
+    if !line.starts_with('.') && !line.starts_with('#') {
+        return None;
+    }
+    let name: String = line[1..]
+        .chars()
+        .take_while(|c| c.is_ascii_lowercase())
+        .collect();
+    match name.as_str() {
+        "if" => Some(Directive::If),
+        "ifdef" => Some(Directive::IfDef),
+        "ifndef" => Some(Directive::IfNDef),
+        "elif" => Some(Directive::ElIf),
+        "else" => Some(Directive::Else),
+        "endif" => Some(Directive::Endif),
+        "macro" => Some(Directive::Macro),
+        "endm" => Some(Directive::EndM),
+        "endmacro" => Some(Directive::EndMacro),
+        _ => None,
+    }
+}
+
 /// Returns next line for parsing and flag that this line is `.elif` which ended
 /// skipping of previous not taken branch (so its condition must be evaluated)
 fn skip<'a>(
@@ -414,8 +450,14 @@ fn skip<'a>(
                 // conditionals in body of skipped definition of macro belong to the macro
                 let mut in_macro = false;
                 while let Some((num, line)) = iter.next() {
-                    if let Some(Ok(item)) = parse_line(line) {
-                        if let Document::DirectiveLine(_, directive, _) = item {
+                    let directive = match parse_line(line) {
+                        Some(Ok(Document::DirectiveLine(_, directive, _))) => Some(directive),
+                        Some(Ok(_)) => None,
+                        // skipped line needn't be valid, but it still opens or closes conditional
+                        _ => skipped_directive(line),
+                    };
+                    {
+                        if let Some(directive) = directive {
                             if directive == Directive::Macro {
                                 in_macro = true;
                             } else if directive == Directive::EndM
